@@ -38,6 +38,7 @@ func VerifC06SingleUse() {
 	ctx := context.Background()
 	st := &vfs.Storage{}
 	t0 := vf.Now()
+	vf.ShortScenario(t0, time.Second)
 	opts := vfStorageOpts(vf.Bool("storage-wrapper"))
 	vfs.StoreRoots(ctx, st, t0, opts...)
 	_, token, err := CreateServerLedActivationToken(ctx, st, &types.ServerLedRegistrationRequest{}, opts...)
@@ -108,6 +109,7 @@ func VerifC06ExistingKey() {
 	ctx := context.Background()
 	st := &vfs.Storage{}
 	t0 := vf.Now()
+	vf.ShortScenario(t0, time.Second)
 	opts := vfStorageOpts(vf.Bool("storage-wrapper"))
 	vfs.StoreRoots(ctx, st, t0, opts...)
 	nonce, hkey := vf.Bytes("token-nonce", 32), vf.Bytes("token-hmac-key", 32)
@@ -147,6 +149,7 @@ func VerifC06Tamper() {
 	ctx := context.Background()
 	st := &vfs.Storage{}
 	t0 := vf.Now()
+	vf.ShortScenario(t0, time.Second)
 	wrapped := vf.Bool("storage-wrapper")
 	opts := vfStorageOpts(wrapped)
 	vfs.StoreRoots(ctx, st, t0, opts...)
